@@ -6,7 +6,8 @@
 //!               ",a:" ("-"|"+"[item("."item)*]) ",p:" group*
 //!   entry    := relation ("/" relation)*        entries := entry (";" entry)*
 //!
-//! rel-wrap, fields = [hex text]:
+//! rel-wrap (well-formed fields; further case fields are for the model and the oracle) and
+//! rel-wrap-text (any text), fields = [hex text, ..]:
 //!   e1=<errors of parse_relaxed(s,true)>|acc=<entries>|sv=<substvars>
 //!   |w1=<hex text of wrap_and_sort() | PANIC>|wacc=<entries of the returned object>|wsv=<its substvars>
 //!   |w2=<hex text of a second application to the returned object | PANIC>
@@ -165,6 +166,7 @@ pub fn rel_wrap_ctl(fs: &[&str]) -> String {
 pub fn streams() -> Vec<(&'static str, crate::StreamFn)> {
     vec![
         ("rel-wrap", rel_wrap as crate::StreamFn),
+        ("rel-wrap-text", rel_wrap as crate::StreamFn),
         ("rel-wrap-ctl", rel_wrap_ctl as crate::StreamFn),
     ]
 }
